@@ -178,3 +178,144 @@ Section Stale2.
         apply hello_tail_indep; assumption.
   Qed.
 End Stale2.
+
+(* ACF-VSS listener: status and printed events do not depend on what the buffer of main held before *)
+Section Stale3.
+  Variable E : endian.
+  Notation LD := (ldqE E). Notation ST := (stqE E). Notation LW := (ldwE E).
+
+  Lemma blen_app (a b:list N) : blen (a ++ b) = blen a + blen b.
+  Proof. unfold blen. rewrite app_length. lia. Qed.
+
+  Lemma addr_mode_app (m t:list N) : 12 <= blen m -> addr_mode LD ST (m ++ t) = addr_mode LD ST m.
+  Proof.
+    intros H. rewrite !(addr_mode_ok E) by (rewrite ?blen_app; lia). f_equal.
+    apply ref_get_app; [inspec|nok|exact H].
+  Qed.
+  Lemma datatype_app (m t:list N) : 12 <= blen m -> datatype LD ST (m ++ t) = datatype LD ST m.
+  Proof.
+    intros H. rewrite !(datatype_ok E) by (rewrite ?blen_app; lia). f_equal.
+    apply ref_get_app; [inspec|nok|exact H].
+  Qed.
+  Lemma ld_app w (m t:list N) a : a + N.of_nat (wbytes w) <= blen m -> ld LW w (m ++ t) a = ld LW w m a.
+  Proof.
+    intros H. rewrite !(ld_ok E) by (rewrite ?blen_app; lia). f_equal.
+    rewrite !ldwE_wire. f_equal. apply slice_app_le. exact H.
+  Qed.
+  Lemma cpy_out_app (m t:list N) a n cap : a + n <= blen m -> cpy_out (m ++ t) a n cap = cpy_out m a n cap.
+  Proof.
+    intros H. unfold cpy_out.
+    replace (a + n <=? blen (m ++ t)) with true by (symmetry; apply N.leb_le; rewrite blen_app; lia).
+    replace (a + n <=? blen m) with true by (symmetry; apply N.leb_le; exact H).
+    cbn [andb]. destruct (n <=? cap); [|reflexivity]. f_equal. rewrite !slice_fast_eq. apply slice_app_le. lia.
+  Qed.
+  Lemma calc_app (m t:list N) : 14 <= blen m -> vss_calc_path_len LW LD ST (m ++ t) = vss_calc_path_len LW LD ST m.
+  Proof.
+    intros H. unfold vss_calc_path_len. rewrite addr_mode_app by lia.
+    destruct (addr_mode LD ST m) as [mode| |]; cbn [Paths.bind]; [|reflexivity|reflexivity].
+    destruct (mode =? 1); [reflexivity|]. destruct (mode =? 0); [|reflexivity].
+    rewrite ld_app by (cbn [wbytes]; unfold VHDR; lia). reflexivity.
+  Qed.
+
+  Definition vss_tail (pdu:buf) (res proc:N) : lstat * list pevent * buf :=
+    let fail st := (st, [], pdu) in
+    if res <? proc + 14 then (XDropped, [], pdu) else
+    xbind (get LD ST spec_AcfCommon "AVTP_ACF_FIELD_ACF_MSG_TYPE" pdu proc) fail (fun t =>
+    if negb (t =? 0x42) then (XDropped, [], pdu) else
+    let m := sub pdu proc in
+    xbind (addr_mode LD ST m) fail (fun mode =>
+    xbind (vss_calc_path_len LW LD ST m) fail (fun pl =>
+    let vss_length := 12 + pl in
+    if res <? proc + vss_length then (XDropped, [], pdu) else
+    if (mode =? 0) && (vss_length <? 14) then (XDropped, [], pdu) else
+    xbind (vss_get_path LW LD ST m MAX_PDU_SIZE) fail (fun gp =>
+    let ev1 := match gp with
+               | GInterop len w => [PVssPathStr (until_nul w)]
+               | GStatic id => [PVssPathId id]
+               | GPathNone => []
+               end in
+    xbind (datatype LD ST m) fail (fun dt =>
+    if (dt =? 9) && (proc + vss_length + 4 <=? res) then
+      xbind (vss_get_data LW LD ST m None) (fun st => (st, ev1, pdu)) (fun gd =>
+        match gd with GScalar v => (XHandled, ev1 ++ [PVssFloat v], pdu) | _ => (XUnmodelled, ev1, pdu) end)
+    else (XHandled, ev1, pdu)))))).
+
+  Lemma vss_unfold udp old d : vss_recv LW LD ST udp old d =
+    cf_prefix LD ST udp (fst (recv_into MAX_PDU_SIZE old d)) (fun st => (st, [], fst (recv_into MAX_PDU_SIZE old d)))
+      (vss_tail (fst (recv_into MAX_PDU_SIZE old d)) (snd (recv_into MAX_PDU_SIZE old d))).
+  Proof. unfold vss_recv. destruct (recv_into MAX_PDU_SIZE old d) as [pdu res]. reflexivity. Qed.
+
+  Lemma vss_tail_indep (d t1 t2:list N) proc :
+    fst (vss_tail (d ++ t1) (blen d) proc) = fst (vss_tail (d ++ t2) (blen d) proc).
+  Proof.
+    unfold vss_tail. destruct (blen d <? proc + 14) eqn:E1; [reflexivity|]. apply N.ltb_ge in E1.
+    rewrite !(get_prefix E spec_AcfCommon) by (first [inspec | nok | eqrefl | (cbn [sp_hdr_len spec_AcfCommon]; lia)]). cbn [xbind].
+    destruct (negb _); [reflexivity|].
+    rewrite !sub_app_le by lia. set (m := sub d proc).
+    assert (Hm : blen m = blen d - proc) by (unfold m; apply blen_sub).
+    rewrite !addr_mode_app by lia.
+    destruct (addr_mode LD ST m) as [mode| |] eqn:EM; cbn [xbind]; [|reflexivity|reflexivity].
+    rewrite !calc_app by lia.
+    destruct (vss_calc_path_len LW LD ST m) as [pl| |] eqn:EP; cbn [xbind]; [|reflexivity|reflexivity].
+    destruct (blen d <? proc + (12 + pl)) eqn:E2; [reflexivity|]. apply N.ltb_ge in E2.
+    destruct ((mode =? 0) && (12 + pl <? 14)) eqn:E5; [reflexivity|].
+    (* the path reader sees received bytes only *)
+    assert (HG : forall t, vss_get_path LW LD ST (m ++ t) MAX_PDU_SIZE = vss_get_path LW LD ST m MAX_PDU_SIZE).
+    { intros t. unfold vss_get_path. rewrite addr_mode_app by lia. rewrite EM. cbn [Paths.bind].
+      unfold vss_calc_path_len in EP. rewrite EM in EP. cbn [Paths.bind] in EP.
+      destruct (mode =? 1) eqn:M1.
+      - injection EP as EP. subst pl. rewrite ld_app by (cbn [wbytes]; unfold VHDR; lia). reflexivity.
+      - destruct (mode =? 0) eqn:M0; [|reflexivity].
+        rewrite ld_app by (cbn [wbytes]; unfold VHDR; lia).
+        rewrite (ld_ok E) in EP |- * by (cbn [wbytes]; unfold VHDR; lia). cbn [Paths.bind] in EP |- *.
+        set (l := ldwE E W16 m VHDR) in *. pose proof (ld16_lt E m VHDR) as Hl. fold l in Hl.
+        injection EP as EP. cbn [andb] in E5. apply N.ltb_ge in E5.
+        assert (Hnw : (l + 2) mod 2 ^ 16 = l + 2).
+        { destruct (N.lt_ge_cases (l + 2) (2 ^ 16)) as [H|H]; [apply N.mod_small; exact H|].
+          exfalso. assert ((l + 2) mod 2 ^ 16 = l + 2 - 2 ^ 16); [|lia].
+          symmetry. apply (N.mod_unique _ _ 1); lia. }
+        rewrite cpy_out_app by (unfold VHDR; lia). reflexivity. }
+    rewrite !HG.
+    destruct (vss_get_path LW LD ST m MAX_PDU_SIZE) as [gp| |]; cbn [xbind]; [|reflexivity|reflexivity].
+    rewrite !datatype_app by lia.
+    destruct (datatype LD ST m) as [dt| |] eqn:ED; cbn [xbind]; [|reflexivity|reflexivity].
+    destruct ((dt =? 9) && (proc + (12 + pl) + 4 <=? blen d)) eqn:E3; [|reflexivity].
+    apply andb_true_iff in E3. destruct E3 as [E3 E4]. apply N.eqb_eq in E3. apply N.leb_le in E4.
+    assert (HD : forall t, vss_get_data LW LD ST (m ++ t) None = vss_get_data LW LD ST m None).
+    { intros t. unfold vss_get_data. rewrite calc_app by lia. rewrite EP. cbn [Paths.bind].
+      rewrite datatype_app by lia. rewrite ED. cbn [Paths.bind]. rewrite E3.
+      replace (vss_kind 9) with (KS (WW W32)) by reflexivity.
+      rewrite ld_app by (cbn [wbytes]; unfold VHDR; lia). reflexivity. }
+    rewrite !HD.
+    destruct (vss_get_data LW LD ST m None) as [gd| |]; cbn [xbind]; [|reflexivity|reflexivity].
+    destruct gd; reflexivity.
+  Qed.
+
+  Theorem vss_stale_independent udp old1 old2 d : List.length old1 = 1500%nat -> List.length old2 = 1500%nat ->
+    fst (vss_recv LW LD ST udp old1 d) = fst (vss_recv LW LD ST udp old2 d).
+  Proof.
+    intros H1 H2.
+    destruct (recv_shape old1 d H1) as [d1 [t1 [R1 [D1 [L1 Hres]]]]]. destruct (recv_shape old2 d H2) as [d2 [t2 [R2 [D2 [L2 _]]]]].
+    subst d2. rename d1 into d'. subst d'. set (d' := firstn 1500 d) in *.
+    rewrite !vss_unfold, R1, R2. cbn [fst snd]. set (res := blen d') in *.
+    set (proc0 := if udp then 4 else 0).
+    destruct (N.lt_ge_cases res (proc0 + 4)) as [Hs|Hs].
+    - destruct (cf_prefix_ok E udp (d' ++ t1) (fun st => (st, [], d' ++ t1)) (vss_tail (d' ++ t1) res) L1) as [p1 [Hp1 K1]].
+      destruct (cf_prefix_ok E udp (d' ++ t2) (fun st => (st, [], d' ++ t2)) (vss_tail (d' ++ t2) res) L2) as [p2 [Hp2 K2]].
+      rewrite K1, K2. unfold vss_tail.
+      replace (res <? p1 + 14) with true by (symmetry; apply N.ltb_lt; unfold proc0 in Hs; destruct udp; lia).
+      replace (res <? p2 + 14) with true by (symmetry; apply N.ltb_lt; unfold proc0 in Hs; destruct udp; lia).
+      reflexivity.
+    - unfold cf_prefix. fold proc0.
+      assert (Hp0 : proc0 <= 4) by (unfold proc0; destruct udp; lia).
+      assert (Hu : forall t, blen (d' ++ t) = 1500 -> exists x, (if udp then get LD ST spec_Udp "AVTP_UDP_FIELD_ENCAPSULATION_SEQ_NO" (d' ++ t) 0 else Ok 0) = Ok x).
+      { intros t Ht. destruct udp; [|eexists; reflexivity]. rewrite (get_ok E); [eexists; reflexivity|inspec|nok|rewrite Ht; cbn; lia]. }
+      destruct (Hu t1 L1) as [x1 X1]. destruct (Hu t2 L2) as [x2 X2]. rewrite X1, X2. cbn [xbind].
+      rewrite !(get_prefix E spec_CommonHeader) by (first [inspec | nok | eqrefl | (cbn [sp_hdr_len spec_CommonHeader]; fold res; lia)]). cbn [xbind].
+      destruct (_ =? 5).
+      + rewrite !(get_ok E spec_Tscf) by (first [inspec | nok | eqrefl | (rewrite ?L1, ?L2; cbn [sp_hdr_len spec_Tscf]; lia)]). cbn [xbind].
+        apply vss_tail_indep.
+      + rewrite !(get_ok E spec_Ntscf) by (first [inspec | nok | eqrefl | (rewrite ?L1, ?L2; cbn [sp_hdr_len spec_Ntscf]; lia)]). cbn [xbind].
+        apply vss_tail_indep.
+  Qed.
+End Stale3.
